@@ -8,7 +8,7 @@ type VarGenerator struct {
 }
 
 func NewVarGenerator() VarGenerator {
-	vs := []string{"x", "y", "z", "p", "q", "r", "s", "t", "u", "v", "w", "a", "b", "c", "d", "e", "f", "g", "h", "i", "j", "k", "l", "m", "n", "o"}
+	vs := []string{"x", "y", "z", "p", "q", "r", "s", "t", "u", "v", "w", "b", "c", "d", "e", "f", "g", "h", "i", "j", "k", "l", "m", "n", "o"}
 	return VarGenerator{
 		vars:    vs,
 		counter: 0,
